@@ -10,9 +10,11 @@ Three layers, and which theorem is about which:
     `witness_prune_defined`, `prune_table_idempotent` are full statements about these functions.
 (T) **typed-term level** — `Prog.pruneTerm` on the intrinsically typed terms the driver evaluates
     (every node kind, `disconnect` included), types kept: `eval_prune_pruner_step` (same output, same
-    tracker record, pruning again changes nothing).  Full for what it states; *not* connected by a
-    theorem to the plan-level `prunePlan` (the bridge `elabNode (prunePlan p) = pruneTerm (elabNode p)`
-    is not proved; the driver evaluates both on every sampled case).
+    tracker record, pruning again changes nothing).  Connected to the plan level by
+    `plan_pruning_is_term_pruning` (`PruneBridge.lean`: elaborating the pruned plan with the arrows of
+    the original plan gives `pruneTerm` of the original term), whence the plan-level statement
+    `eval_prune_plan_original_types`.  What is *not* proved is the other step: that the pruned plan
+    elaborated with its *re-inferred* arrows and pruned witnesses behaves the same (see (A)).
 (A) **abstract models** — `Prune.lean` (`ShrinkOn`, `eval_shrink`: re-typing with shrunken types and
     pruned witnesses keeps the behaviour) and `PruneTrace.lean` (identity-labelled skeletons without
     `disconnect`: `prune_spec`, `antiDoS`).  Restated here as `…_partial`: the relation between the
@@ -24,6 +26,7 @@ Three layers, and which theorem is about which:
 -/
 import SimplicityModel.PrunePlanProps
 import SimplicityModel.PruneTerm
+import SimplicityModel.PruneBridge
 import SimplicityModel.Prune
 import SimplicityModel.PruneTrace
 
@@ -148,14 +151,44 @@ theorem eval_prune_pruner_step {a b : Ty} (t : Term a b) (l : Lab) (v o : Val) (
     pruneLab tr.sides (pruneTerm tr.sides t l) (pruneLab tr.sides t l) = pruneLab tr.sides t l :=
   prune_spec_term t l v o tr h
 
+/-- **Plan level = term level.**  If node `i` of a plan elaborates — with the plan's arrows,
+witnesses, roots and jet table `e` — to the term `t`, then node `i` of the pruned plan elaborates,
+*with the same arrows*, to `pruneTerm S t` taken at the plan's labels, and the labels of the pruned
+plan are `pruneLab S t` of the plan's labels: the plan-level `prune_case` table is exactly the
+term-level rewriting, for every tracker content, identity assignment and root table. -/
+theorem plan_pruning_is_term_pruning (S : List (Nat × Bool)) (ids : Nat → Nat) (cm : Nat → Nat) (e : Env)
+    (f i : Nat) (x : Σ a b, Term a b) (h : elabNode e f i = some x) :
+    elabNode (envP S ids cm e) f i = some ⟨x.1, x.2.1, pruneTerm S x.2.2 (labOf e.plan ids f i)⟩ ∧
+    labOf (prunePlan S ids cm e.plan) ids f i = pruneLab S x.2.2 (labOf e.plan ids f i) :=
+  elabNode_prunePlan S ids cm e f i x h
+
+/-- **Same output, same record, idempotent — on plans, with the original arrows.**  If the term of
+node `i` of the plan runs on `v` to `o` with tracker record `tr`, then the plan pruned by `tr.sides`
+still elaborates at node `i` (same arrows, witnesses, roots, jets), the resulting term — run with the
+labels of the pruned plan — gives the same output `o` and the same record `tr`, and pruning the pruned
+plan by that record once more changes nothing. -/
+theorem eval_prune_plan_original_types (ids : Nat → Nat) (cm : Nat → Nat) (e : Env) (f i : Nat)
+    (x : Σ a b, Term a b) (v o : Val) (tr : Trace) (hx : elabNode e f i = some x)
+    (hrun : evalT x.2.2 (labOf e.plan ids f i) v = .ok (o, tr)) :
+    ∃ t' : Term x.1 x.2.1,
+      elabNode (envP tr.sides ids cm e) f i = some ⟨x.1, x.2.1, t'⟩ ∧
+      evalT t' (labOf (prunePlan tr.sides ids cm e.plan) ids f i) v = .ok (o, tr) ∧
+      prunePlan tr.sides ids cm (prunePlan tr.sides ids cm e.plan) = prunePlan tr.sides ids cm e.plan := by
+  obtain ⟨h1, h2⟩ := elabNode_prunePlan tr.sides ids cm e f i x hx
+  refine ⟨_, h1, ?_, prunePlan_idem _ _ _ _⟩
+  rw [h2]
+  exact evalT_pruneTerm tr.sides x.2.2 _ v o tr hrun (fun _ hp => hp)
+
 /-! ## (A) abstract models (bridge to the plan level sampled, not proved) -/
 
 /-- **Same behaviour after re-typing** (`Prune.lean`).  If `t'` is `t` with arbitrary other types,
 witness values pruned to the new types (`pr`), jets and words unchanged, and case nodes possibly
 replaced by assertions hiding the branch *not taken on input `v`* (`ShrinkOn t' t v`), then a
 successful run of `t` on `v` with output `out` implies that `t'` maps the pruned input to the pruned
-output.  *Partial*: that the term elaborated from the re-typed pruned plan is `ShrinkOn`-related to
-the term of the original plan is not proved (sampled by the driver on every case). -/
+output.  *Partial*: that the term elaborated from the pruned plan with its *re-inferred* arrows and
+`pruneV`-pruned witnesses is `ShrinkOn`-related to the term of the original plan is not proved
+(`types_shrink`, `witness_prune_defined` and `plan_pruning_is_term_pruning` are the ingredients; the
+driver runs the re-typed pruned plan on every sampled case). -/
 theorem eval_prune_retyping_partial {a' b' a b : Ty} {t' : Term a' b'} {t : Term a b} {v : Val}
     (h : ShrinkOn t' t v) (out : Val) (he : eval t v = some out) :
     eval t' (pr a' v) = some (pr b' out) :=
